@@ -61,7 +61,7 @@ def run(ctx):
             lambda s: (s["shape"], (s.get("cancel") or {}).get("class")),
             lambda s: (s["shape"], (s.get("death") or {}).get("class")),
             lambda s: tuple(f["kind"] for f in s.get("faults") or [])]
-    sw = cc.cover_sample(rng, sw, 12000 if th else 1500, keyf)
+    sw = cc.cover_sample(rng, sw, 12000 if th else 1350, keyf)
     # faults on the requests of objects that several parts of the image share (a waiter depends on another
     # task's copy there), under several random schedules each
     shared = {"idx2": ["L"], "nested": ["L1"], "docker": ["L"], "dup": ["L1"], "art": ["E"], "artidx": ["L1", "E"]}
@@ -82,7 +82,7 @@ def run(ctx):
     # slow requests (every request of every fault-free run held back as long as anything else can move), in
     # particular the PUT of a manifest that two parents share; and the double fault PUT + rewind on one blob
     slow = e.slow_requests(bres, "slow")
-    slow = cc.cover_sample(rng, slow, 6000 if th else 520,
+    slow = cc.cover_sample(rng, slow, 6000 if th else 440,
                            [lambda s: (s["shape"], s["hold"][0]["class"]), lambda s: (s["shape"], s["pair"]),
                             lambda s: (s["shape"] in ("diamond", "diamond2", "nested", "idx2"), s["pair"], s["hold"][0]["class"], s["hold"][0]["n"])])
     rew = e.rewinds(bres, "rewind")
@@ -92,7 +92,14 @@ def run(ctx):
                  script=[{"op": "rel", "host": "src", "class": "manifest_get", "n": "S"},
                          {"op": "rel", "host": "src", "class": "blob_get", "n": "L2"}, {"op": "settle"},
                          {"op": "rel", "host": "src", "class": "blob_get", "n": "LB"}, {"op": "settle"}])
-    scns = scripts + sw + sh_sw + slow + rew + e.client_history("history") + e.round4("round4")
+    # (round 5) a second user of the same client closing the layout target (alone / after its own copy into it) at
+    # every request position and after every stored blob of the running copy; warm caches of the same client
+    cl = e.closers("closer")
+    cl = cl if th else cc.cover_sample(rng, cl, 170, [lambda s: (s["shape"], s["pair"], bool(s.get("closer_cb"))),
+                                                      lambda s: (s["closer_op"], (s.get("closer") or {}).get("class"))])
+    wm = e.warm_cache("warm")
+    wm = wm if th else cc.cover_sample(rng, wm, 60, [lambda s: (s["shape"], s["prior"], s["prior_arg"])])
+    scns = scripts + sw + sh_sw + slow + rew + e.client_history("history") + e.round4("round4") + cl + wm
     loopy = [x for x in scns if x["shape"] in cc.LOOP_SHAPES and x["opts"].get("dtags")]
     keep = set(id(x) for x in loopy[:(30 if th else 6)])
     scns = [x for x in scns if not (x["shape"] in cc.LOOP_SHAPES and x["opts"].get("dtags")) or id(x) in keep]
